@@ -30,12 +30,12 @@ PROFILE_WEIGHTS = {
               ("dev_nogauss", 0.3), ("dev_cvrmse", 1), ("legacy_dev", 1)],
     "billing": [("default", 5), ("seasonmap", 2), ("dev_cvrmse", 1.5), ("dev_split", 1)],
     "hourly": [("seed1", 4), ("seed0", 1), ("robust", 1.5), ("solar", 1.5), ("solar_rev", 0.8), ("nonsolar", 1.5), ("adaptive", 1), ("adaptive_lowthr", 0.7), ("lowthr", 1.5),
-               ("cvonly", 0.8), ("pnonly", 0.8), ("noedge", 1), ("obj", 1)],
+               ("cvonly", 0.8), ("pnonly", 0.8), ("noedge", 1), ("supp", 0.8), ("suppcat", 0.6), ("obj", 1)],
     "caltrack": [("default", 1)],
 }
-DEFECTS = {"daily": ["short", "long", "gaps", "tmonth", "neg", "noise"],
-           "billing": ["short", "long", "tmonth", "neg", "noise"],
-           "hourly": ["short", "long", "gaps", "tmonth", "neg", "noise", "short9"],
+DEFECTS = {"daily": ["short", "long", "gaps", "tmonth", "neg", "noise", "gaps+tmonth", "short+neg"],
+           "billing": ["short", "long", "tmonth", "neg", "noise", "short+tmonth"],
+           "hourly": ["short", "long", "gaps", "tmonth", "neg", "noise", "short9", "gaps+tmonth", "long+neg"],
            "caltrack": []}
 
 
@@ -60,6 +60,8 @@ ANCHORS = [
     ("billing", "seasonmap", _b("billing", 105, bill="monthly")),
     ("hourly", "solar", _b("hourly", 131, tz="Europe/London", ghi=True)),
     ("daily", "dev_nosmooth", _b("daily", 123, tz="US/Pacific")),
+    ("hourly", "seed1", _b("hourly", 112, norm=1)),
+    ("daily", "default", _b("daily", 118, norm=1)),
 ]
 
 
@@ -150,16 +152,25 @@ class Gen:
             rec["defect"] = r.choice(DEFECTS[dfam])
         if dfam == "hourly":
             rec["ghi"] = r.random() < 0.4
+            if r.random() < 0.25:
+                rec["extra"] = True
         if dfam == "billing":
             rec["bill"] = r.choice(["monthly", "bimonthly"])
+        if self.mode == "C03" and dfam in ("daily", "hourly") and r.random() < 0.35:
+            # a portfolio normalised to unit mean over the same year: different meters that agree on every cheap
+            # fingerprint (length, first timestamp, mean) — what a cache with a lazy key would confuse
+            rec["norm"] = 1
+            rec["tz"] = "America/Chicago"
+            rec.pop("defect", None)
         return rec
 
     def _reporting(self, base, span=None, obs=None, foreign_tz=False):
         r = self.rng
         rec = {k: v for k, v in base.items() if k not in ("defect", "role")}
         rec["role"] = "reporting"
-        if base.get("defect") in ("short", "long", "short9"):
-            rec["defect"] = base["defect"]  # only moves the start of the reporting period
+        for part in (base.get("defect") or "").split("+"):
+            if part in ("short", "long", "short9"):
+                rec["defect"] = part  # only moves the start of the reporting period
         dfam = base["fam"]
         spans = ["day", "week", "month", "partial", "full", "baseline"]
         weights = [1.5, 2.5, 2, 2, 3, 1]
@@ -307,10 +318,11 @@ class Gen:
         elif k == "blas":
             self.emit("BLAS", n=r.choice([1, 2, 16, None]))
         elif k == "clock":
-            how = r.choice(["skew", "jump", "jump", "stall"])
-            x = {"skew": r.choice([0.01, 0.5, 3.0, 100.0]), "jump": r.choice([-3600.0, -5.0, 60.0, 86400.0]),
-                 "stall": r.choice([5, 50])}[how]
-            self.emit("CLOCK", how=how, x=x, n=r.choice([1, 3]))
+            how = r.choice(["skew", "jump", "jump", "stall", "native_jump", "native_jump"])
+            x = {"skew": r.choice([0.01, 0.5, 3.0, 100.0]), "jump": r.choice([-3600.0, -5.0, 60.0, 86400.0, 86400.0 * 200]),
+                 "stall": r.choice([5, 50]), "native_jump": r.choice([6.0, 30.0, 3600.0, -30.0])}[how]
+            n = r.choice([1, 3]) if how != "native_jump" else r.choice([2, 10, 60, 400])
+            self.emit("CLOCK", how=how, x=x, n=n)
         else:
             how = r.choice(["reseed", "draw"])
             self.emit("RNG", how=how, x=r.randrange(1, 10_000))
@@ -357,6 +369,12 @@ class Gen:
                 self.predict(m0, bs[0], ignore=True)
                 self.emit("SCRIBBLE_PRED", m=m0)
                 self.predict(m0, bs[0], ignore=True)
+            mm = self.models[m0]
+            if bs and FIT_COST.get((mm["fam"], mm["profile"]), FIT_COST.get(mm["fam"], 1)) <= 1.3:
+                # sampled crash points of a fit on the shared baseline object: the data object must stay untouched
+                self.emit("FIT_ABORT_SWEEP", d=bs[0], fam=mm["fam"], profile=mm["profile"],
+                          exc=r.choice(["MemoryError", "KeyboardInterrupt"]), points=10 if mm["fam"] == "hourly" else 14)
+                self.cost += 6
             doc = self.store(m0)
             # the same history on a restored object: short span first, then the longer ones
             m1 = self.load(doc)
@@ -375,6 +393,11 @@ class Gen:
                 self.predict(m1, ds[0], ignore=True)
             self._refit_flipped(m0, base0, also_fresh=True)
         elif mode == "C04":
+            bs = self._data_for(m0, "baseline")
+            if bs and self.models[m0]["fam"] != "caltrack":
+                mm = self.models[m0]
+                cheap = "legacy" if mm["fam"] == "daily" else mm["profile"]
+                self.fit(mm["fam"], bs[0], profile=cheap, ignore=False, allow_abort=False)
             self.predict(m0, ds[0], ignore=False)
             doc = self.store(m0)
             m1 = self.load(doc)
@@ -384,6 +407,15 @@ class Gen:
             doc2 = self.store(m1)
             m2 = self.load(doc2)
             self.predict(m2, ds[0], ignore=False)
+            # the other guards on a restored object: foreign timezone (look-alike or not), foreign data family
+            if base0.get("src") != "sample":
+                dz = self.make_data(self._reporting(base0, foreign_tz=True, span=r.choice(["week", "month"])))
+                self.predict(m2, dz, ignore=True)
+                self.predict(m0, dz, ignore=True)
+            ofam = r.choice([f for f in ("daily", "billing", "hourly") if f != self._data_fam(self.models[m0]["fam"])])
+            dx = self.make_data(self._reporting({k: v for k, v in self._new_base(ofam).items() if k != "defect"},
+                                                span=r.choice(["week", "month"])))
+            self.predict(m2, dx, ignore=True)
             self._refit_flipped(m0, base0, also_fresh=False)
         elif mode == "C05":
             rec = self._reporting(base0, obs="present")
@@ -396,6 +428,8 @@ class Gen:
             self.emit("PREDICT_PAIR", m=m0, recipe=rec2, alter=r.choice(["scaled", "shuffled", "partnan", "allnan", "absent"]))
             rec3 = dict(rec2, obs="partnan", tgap=0)
             self.emit("PREDICT_PAIR", m=m0, recipe=rec3, alter="partnan2", seq=True)
+            if self.models[m0]["fam"] == "billing":
+                self.emit("PREDICT_PAIR", m=m0, recipe=dict(rec2, tgap=0), alter="scaled", agg=r.choice(["monthly", "bimonthly"]))
             self.cost += 4 * PRED_COST.get(self.models[m0]["fam"], 0.3)
 
     def _refit_flipped(self, m0, base0, also_fresh):
@@ -497,6 +531,11 @@ class Gen:
                 base0 = dict(base0, ghi=True)
                 base0.pop("src", None)
                 if base0["mid"] < 100:
+                    base0["mid"] += 100
+            if P.needs_extra(fam0, forced[1]):
+                base0 = dict(base0, extra=True)
+                if base0.get("src") == "sample":
+                    base0.pop("src")
                     base0["mid"] += 100
             if P.wants_weekend_regime(fam0, forced[1]):
                 base0 = dict(base0)
@@ -666,6 +705,11 @@ class Gen:
                 if alter == "partnan2":
                     rec["obs"] = "partnan"
                 args = dict(m=ms, recipe=rec, alter=alter)
+                if m["fam"] == "billing" and r.random() < 0.35:
+                    # aggregated predictions: only an alteration that keeps the missing-usage pattern is comparable
+                    args["alter"] = "scaled"
+                    rec["obs"] = "present"
+                    args["agg"] = r.choice(["monthly", "bimonthly"])
                 if r.random() < 0.5:
                     args["seq"] = True   # one copy of the model predicts both sets, one after the other
                 self.emit("PREDICT_PAIR", **args)
@@ -743,6 +787,16 @@ class Gen:
                 self.models.pop(ms, None)
             elif op == "fault":
                 self.fault()
+        if mode == "C03":
+            # the anchor key once more, by a fresh model, after whatever this run did to the process
+            fam_a, prof_a, base_a = ANCHORS[idx % len(ANCHORS)]
+            d_a = self.make_data(dict(base_a), slot=N_DATA_SLOTS - 1)
+            m_a = self.fit(fam_a, d_a, profile=prof_a, ignore=True, mslot=N_MODEL_SLOTS - 1, allow_abort=False)
+            rep_a = {k: v for k, v in base_a.items() if k != "role"}
+            rep_a.update(role="reporting", span="partial" if base_a.get("src") == "sample" else "month", obs="present", tgap=0)
+            r_a = self.make_data(rep_a, slot=N_DATA_SLOTS - 2)
+            self.predict(m_a, r_a, ignore=True)
+            self.events[-1]["args"].pop("abort", None)
         return {"seed": self.seed, "mode": mode, "backend": self.backend, "swarm": sw, "events": self.events}
 
 
